@@ -21,6 +21,9 @@ type Cache struct {
 	evictionsDone chan struct{}
 	flushOnce     sync.Once
 
+	// missMutex serializes the slow path of Get, see the comment there
+	missMutex sync.Mutex
+
 	hitCounter          string
 	missCounter         string
 	storageReadCounter  string
@@ -156,6 +159,17 @@ func (cache *Cache) Get(key string) (interface{}, error) {
 	}
 	logrus.WithField("key", key).Debug("lfu miss")
 	metrics.Count(cache.missCounter, 1)
+
+	// Loading or creating an object and putting it into the lfu has to be
+	// atomic with respect to other misses of the same key. Otherwise two
+	// goroutines missing at the same time each get an object of their own, and
+	// the one that calls lfu.Set last silently replaces the object the other
+	// one has already been handed (and may have written to).
+	cache.missMutex.Lock()
+	defer cache.missMutex.Unlock()
+	if val := cache.lfu.Get(key); val != nil {
+		return val, nil
+	}
 
 	var copied []byte
 	// read the value from badger
